@@ -400,14 +400,14 @@ def _release_all(ctx):
         lb |= cfg.loop_blocks(b, t_, h)
     exits = [(x, y) for x in lb for y in b.succs()[x] if y not in lb and b.blocks[y].term["k"] != "unreachable"]
     dom = cfg.dominators(b)
-    from ..lib import branch_conditions
+    from ..lib import branch_conditions, producer_calls
     bad = []
     for x, y in exits:
         okx = False
         for d, discr, val in branch_conditions(b, y, dom) + branch_conditions(b, x, dom):
             pl = discr.get("mv") or discr.get("cp")
             for df in du.defs.get(pl["l"], []) if pl else []:
-                if df[0] == "assign" and df[3]["rv"]["k"] == "discr" and b.locals[df[3]["rv"]["p"]["l"]]["ty"].startswith("std::result::Result<") and val == 1 and du.slice_operand({"cp": df[3]["rv"]["p"]}).has_call((callee_of(recv[0][1]) or "").rsplit("::", 1)[-1]):
+                if df[0] == "assign" and df[3]["rv"]["k"] == "discr" and b.locals[df[3]["rv"]["p"]["l"]]["ty"].startswith("std::result::Result<") and val == 1 and not df[3]["rv"]["p"]["p"] and any(c_.rsplit("::", 1)[-1] == (callee_of(recv[0][1]) or "").rsplit("::", 1)[-1] for c_, _b in producer_calls(b, du, {"cp": df[3]["rv"]["p"]})):
                     okx = True
         if not okx:
             bad.append((x, y))
